@@ -296,7 +296,13 @@ pub fn explore_diff(a: &SeqCfg, b: &SeqCfg, threads: usize) -> SeqReport {
                             nh.push(Elem { cmd: ci as u16, choices: vec![] });
                             let da = ra.world.dump();
                             let db = rb.world.dump();
-                            let differs = if apa.out_bytes != apb.out_bytes {
+                            // two runs that differ only in the opaques sent: compare modulo the echoed opaque
+                            let mask = a.opaques != b.opaques;
+                            let strip = |bytes: &[u8]| -> Vec<(u8, u16, u64, Vec<u8>)> {
+                                wire::split_responses(bytes).0.into_iter().map(|r| (r.opcode, r.status, r.cas, r.body)).collect()
+                            };
+                            let same_out = if mask { strip(&apa.out_bytes) == strip(&apb.out_bytes) } else { apa.out_bytes == apb.out_bytes };
+                            let differs = if !same_out {
                                 let (x, _) = wire::split_responses(&apa.out_bytes);
                                 let (y, _) = wire::split_responses(&apb.out_bytes);
                                 Some(format!(
@@ -305,7 +311,11 @@ pub fn explore_diff(a: &SeqCfg, b: &SeqCfg, threads: usize) -> SeqReport {
                                     y.iter().map(|r| r.short()).collect::<Vec<_>>()
                                 ))
                             } else if da != db {
-                                Some(format!("stores differ: {} items / {} items", da.len(), db.len()))
+                                let first = da.iter().zip(db.iter()).find(|(x, y)| x != y);
+                                Some(match first {
+                                    Some((x, y)) => format!("stores differ: {:?} / {:?}", x, y),
+                                    None => format!("stores differ: {} items / {} items", da.len(), db.len()),
+                                })
                             } else {
                                 None
                             };
@@ -395,62 +405,82 @@ pub fn bind_pipelined(loud: &SeqCfg, depth: usize, threads: usize) -> (u64, Vec<
         tuples.extend(next.iter().cloned());
         level = next;
     }
+    enum Step {
+        Tick(u64),
+        Req(Vec<u8>, Vec<u8>),
+    }
     let results = crate::check_c09::par_map(&tuples, threads, |_, t| -> Result<Option<(String, String)>, String> {
-        // in-process run of the toggled history: segments of (request bytes, expected response bytes)
+        // in-process run of the toggled history
         let mut rb = Runner::new(&cfg_b);
-        let mut segs: Vec<(Vec<u8>, Vec<u8>)> = vec![(vec![], vec![])];
-        let mut ticks: Vec<u64> = vec![];
+        let mut steps: Vec<Step> = vec![];
         for ci in t {
             let ap = rb.apply(*ci as usize, &[]);
             if !ap.applicable || ap.pruned {
                 return Ok(None);
             }
-            if let Some(d) = ap.tick_secs {
-                ticks.push(d);
-                segs.push((vec![], vec![]));
-                continue;
+            match ap.tick_secs {
+                Some(d) => steps.push(Step::Tick(d)),
+                None => steps.push(Step::Req(ap.req_bytes, ap.out_bytes)),
             }
-            let last = segs.last_mut().unwrap();
-            last.0.extend_from_slice(&ap.req_bytes);
-            last.1.extend_from_slice(&ap.out_bytes);
         }
         let exp_dump = rb.world.dump();
-        let w = NetWorld::new(NetCfg { item_limit: cfg_b.sut.item_limit, policy: cfg_b.sut.policy, ..Default::default() })?;
-        w.clock.set(cfg_b.start_time);
-        let mut c = w.connect()?;
         let h: Hist = t.iter().map(|c| Elem { cmd: *c, choices: vec![] }).collect();
-        for (i, (req, exp)) in segs.iter().enumerate() {
-            if i > 0 {
-                w.clock.advance(ticks[i - 1]);
+        let kinds: Vec<String> = t.iter().map(|ci| cfg_b.alphabet[*ci as usize].kind().to_string()).collect();
+        // mode 0: every clock-free segment is one write; mode 1: one request at a time with 45 s of
+        // (virtual) idle time in front of each - below the receive timeout, which every frame re-arms
+        for mode in 0..2 {
+            let w = NetWorld::new(NetCfg { item_limit: cfg_b.sut.item_limit, policy: cfg_b.sut.policy, ..Default::default() })?;
+            w.clock.set(cfg_b.start_time);
+            let mut c = w.connect()?;
+            let mut i = 0;
+            while i < steps.len() {
+                let (req, exp): (Vec<u8>, Vec<u8>) = match &steps[i] {
+                    Step::Tick(d) => {
+                        w.clock.advance(*d);
+                        i += 1;
+                        continue;
+                    }
+                    Step::Req(r, e) => {
+                        let (mut req, mut exp) = (r.clone(), e.clone());
+                        i += 1;
+                        if mode == 0 {
+                            while let Some(Step::Req(r2, e2)) = steps.get(i) {
+                                req.extend_from_slice(r2);
+                                exp.extend_from_slice(e2);
+                                i += 1;
+                            }
+                        } else {
+                            w.advance(45);
+                        }
+                        (req, exp)
+                    }
+                };
+                let before = c.got.len();
+                let sent = c.step(&w, &req);
+                let got = &c.got[before..];
+                if sent.is_err() || got != &exp[..] {
+                    let (a, _) = wire::split_responses(&exp);
+                    let (b, _) = wire::split_responses(got);
+                    return Ok(Some((
+                        format!("{}|{}", if mode == 0 { "pipelined-over-tcp-differs" } else { "paced-over-tcp-differs" }, kinds.join(",")),
+                        format!(
+                            "[{}] sent {}: in-process {:?} / over TCP {:?}{}",
+                            hist_text(&cfg_b, &h).join(" ; "),
+                            if mode == 0 { "as one pipelined write" } else { "one request at a time, 45 s apart" },
+                            a.iter().map(|x| x.short()).collect::<Vec<_>>(),
+                            b.iter().map(|x| x.short()).collect::<Vec<_>>(),
+                            if sent.is_err() || c.eof { " (connection lost)" } else { "" }
+                        ),
+                    )));
+                }
             }
-            if req.is_empty() {
-                continue;
-            }
-            let before = c.got.len();
-            let sent = c.step(&w, req);
-            let got = &c.got[before..];
-            if sent.is_err() || got != &exp[..] {
-                let (a, _) = wire::split_responses(exp);
-                let (b, _) = wire::split_responses(got);
-                let kinds: Vec<String> = t.iter().map(|ci| cfg_b.alphabet[*ci as usize].kind().to_string()).collect();
+            let dump = w.dump();
+            if let Some(d) = compare_dumps(&exp_dump, &dump) {
                 return Ok(Some((
-                    format!("pipelined-over-tcp-differs|{}", kinds.join(",")),
-                    format!(
-                        "[{}] sent as one pipelined write: in-process {:?} / over TCP {:?}{}",
-                        hist_text(&cfg_b, &h).join(" ; "),
-                        a.iter().map(|x| x.short()).collect::<Vec<_>>(),
-                        b.iter().map(|x| x.short()).collect::<Vec<_>>(),
-                        if sent.is_err() { " (connection lost)" } else { "" }
-                    ),
+                    if mode == 0 { "pipelined-over-tcp-effect".into() } else { "paced-over-tcp-effect".into() },
+                    format!("[{}] over TCP: store differs from the in-process run: {}", hist_text(&cfg_b, &h).join(" ; "), d),
                 )));
             }
-        }
-        let dump = w.dump();
-        if let Some(d) = compare_dumps(&exp_dump, &dump) {
-            return Ok(Some((
-                "pipelined-over-tcp-effect".into(),
-                format!("[{}] sent as pipelined writes: store differs from the in-process run: {}", hist_text(&cfg_b, &h).join(" ; "), d),
-            )));
         }
         Ok(None)
     });
